@@ -178,23 +178,34 @@ func c10JudgeE2E(tree *c10Tree, l *c10Layout, c *c10E2ECase, ps string, tee *c10
 	bc := &c10BudCase{N: l.N, Thr: c.Thr, Min: c.Min, LS: c.LSUsage * 1e6, LSR: c10E2ELSEUsage * 1e6, BE: c10E2EBEUsage * 1e6, Sys: c10E2ESysUsage * 1e6}
 	exact := c10BudExact(bc)
 	// every cpuset.cpus file that was written: distinct existing unprotected CPUs
+	// what the agent finally decided per cpuset.cpus file (last update handed to the executor) and what the file holds
 	written := map[string]bool{}
+	last := map[string]string{}
 	quotaWritten := false
 	for _, w := range tee.writes {
 		if w.Type == tree.cpusetType {
 			written[w.Path] = true
+			last[w.Path] = w.Value
 		}
 		if w.Type == tree.quotaType && w.Path == tree.quotaFile {
 			quotaWritten = true
 		}
 	}
+	sets := map[string][]int{}
 	for path := range written {
 		val := c10ReadFile(path)
 		ids, ok := c10ParseList(val)
-		if !ok {
-			add("C10|e2e|malformed-cpuset", fmt.Sprintf("%s holds %q", path, val))
+		lastIDs, ok2 := c10ParseList(last[path])
+		if !ok || !ok2 {
+			add("C10|e2e|malformed-cpuset", fmt.Sprintf("%s holds %q, last update %q", path, val, last[path]))
 			continue
 		}
+		if c10Fmt(c10SetOf(ids).sorted()) != c10Fmt(c10SetOf(lastIDs).sorted()) {
+			// the real executor did not bring the file to the decided value (e.g. rejected by validation): judge the decision
+			cnt("file_differs_from_last_update", 1)
+			ids = lastIDs
+		}
+		sets[path] = ids
 		if cl, what := prot.c10JudgeSet(ids); cl != "" {
 			add("C10|e2e|"+cl, fmt.Sprintf("cpuset.cpus file %s: %s", path, what))
 		} else if prot.nProtected > 0 && len(ids) > 0 {
@@ -222,10 +233,7 @@ func c10JudgeE2E(tree *c10Tree, l *c10Layout, c *c10E2ECase, ps string, tee *c10
 		return vs
 	}
 	// cpuset policy: count clauses on what the BE containers finally run on
-	var derived []int
-	if written[tree.ctrFile] {
-		derived, _ = c10ParseList(c10ReadFile(tree.ctrFile))
-	}
+	derived := sets[tree.ctrFile]
 	step := c10StepLimit(l.N)
 	floorDiv := func(a, b int64) int64 {
 		q := a / b
